@@ -305,27 +305,31 @@ func (a *Box2) lineIntersect(l *Line2) *Line2 {
 	// points instead fails when an end point and the crossing of a box edge
 	// are about the tolerance apart: they are neither merged nor a third
 	// solution.)
+	// Snapping decides if a point belongs to the box. The points returned are
+	// not snapped: a piece that runs along a box edge within the tolerance
+	// would be moved onto the top/right edge, where it belongs to the
+	// neighbouring box, which never saw it.
 	n := 0
 	var t0, t1 float64
-	var p0, p1 v2.Vec
+	var p0, p1, q0, q1 v2.Vec
 	for _, t := range tSet {
 		p := u.Add(v.MulScalar(t))
-		p = a.Snap(p, tol)
+		q := a.Snap(p, tol)
 		// is the point in the box?
-		if !a.Contains(p) {
+		if !a.Contains(q) {
 			continue
 		}
 		if n == 0 || t < t0 {
-			t0, p0 = t, p
+			t0, p0, q0 = t, p, q
 		}
 		if n == 0 || t > t1 {
-			t1, p1 = t, p
+			t1, p1, q1 = t, p, q
 		}
 		n++
 	}
 
 	// no solutions, or the line only touches the box
-	if n == 0 || p0.Equals(p1, tol) {
+	if n == 0 || q0.Equals(q1, tol) {
 		return nil
 	}
 
